@@ -16,7 +16,7 @@ MANIFEST = {
     "technique": "exhaustive depth-bounded exploration of trajectory-operation histories on real objects against an "
                  "array-tuple reference model, with a precentered-vs-from-scratch RMSD differential in every state",
     "text": "From 3 initial trajectories (5 frames/7 atoms incl. waters with cell and explicit time; no cell/default time; "
-            "1 frame) every sequence of up to 2 (thorough 3) operations of a 30-op alphabet {t[0], t[-1], t[1:4], t[::2], "
+            "1 frame) every sequence of up to 2 (thorough 3) operations of a 31-op alphabet {a copy=False child that shares memory superposed in place (then the parent's own centring must act on the coordinates it has now), t[0], t[-1], t[1:4], t[::2], "
             "t[::-1], t[[3,1]], t[mask], slice(copy=False), t+t, join([..]), md.join, join(discard_overlapping_frames=True) over a real overlap, stack, atom_slice (inplace F/T), "
             "center_coordinates (mass_weighted F/T), superpose onto itself and onto an off-origin reference, remove_solvent (inplace F/T, and with exclude=), xyz/time/unitcell assignment} "
             "is executed. After every step: all fields equal the model (same numpy indexing) and have equal length; result "
